@@ -24,9 +24,18 @@ func AutomorphismNTTIndex(N int, NthRoot, GalEl uint64) (index []uint64, err err
 	mask = NthRoot - 1
 	index = make([]uint64, N)
 
+	/* #nosec G115 -- N cannot be negative */
+	conjugateInvariant := NthRoot == uint64(N)<<2
+
 	for i := 0; i < N; i++ {
 		tmp1 = 2*utils.BitReverse64(i, logNthRoot) + 1
-		tmp2 = ((GalEl * tmp1 & mask) - 1) >> 1
+		tmp2 = GalEl * tmp1 & mask
+		// In the conjugate-invariant ring (NthRoot = 4N) only the roots of exponent 1 mod 4 are stored:
+		// the value at a root of exponent 3 mod 4 is the value at its conjugate, which is stored.
+		if conjugateInvariant && tmp2&3 == 3 {
+			tmp2 = NthRoot - tmp2
+		}
+		tmp2 = (tmp2 - 1) >> 1
 		index[i] = utils.BitReverse64(tmp2, logNthRoot)
 	}
 
